@@ -86,7 +86,8 @@ func (m *PositionMapper) LineUTF16Len(line int) int {
 	if line < 0 || line >= len(m.lines) {
 		return 0
 	}
-	return UTF16Len(m.lines[line])
+	// lines are split at LF: the CR of a CR LF line end is not part of the line's content
+	return UTF16Len(strings.TrimSuffix(m.lines[line], "\r"))
 }
 
 func (m *PositionMapper) LineRuneLen(line int) int {
